@@ -295,8 +295,9 @@ def plan(tier, seed):
             cfgs.append(dict(shape="gen", a=a, flowidx=mode[0], absolute=mode[1], waits=mode[2], N=n1, delay0=[0, 1], finish=3))
     # every configuration once more with long fixed workloads (state that only breaks after hundreds of packets)
     nlong = explore.add_long(cfgs, 300 if quick else 1000)
+    ndebug = explore.add_debug_variants(cfgs)      # the same with every element constructed with debug=True
     return {"cfgs": cfgs, "budget": None,
-            "bound": ("%d long fixed workloads (periodic arrival patterns); " % nlong) + ("N<=%d packets per workload; %d single elements, %d ordered chains, demux/switch/splitter/hub configurations, "
+            "bound": ("%d long fixed workloads (periodic arrival patterns); %d configurations repeated with debug=True; " % (nlong, ndebug)) + ("N<=%d packets per workload; %d single elements, %d ordered chains, demux/switch/splitter/hub configurations, "
                      "generator pipelines with <=%d draws per generator" % (n1, len(SINGLE) + 2, len(SINGLE) ** 2 + 2, n1))}
 
 
